@@ -624,6 +624,8 @@ theorem C12_final_check_clauses_partial (macFn : Tsig → List UInt8 → List UI
           ((run { w := { s0 with mode := mode } } ops).2.map Driver.statusStr ++ ["ok"]) [m] (some d) mac' =
         Spec.Message.checkSegment false aF d m.size mac' ∧
       aF.hdr = d.msg.header ∧ aF.hdr.z = 0 ∧ m.size ≤ aF.limit ∧
+      AbsCfg (run { w := { s0 with mode := mode } } ops).1.w aF ∧
+      aF.mode = Driver.toSpecMode (run { w := { s0 with mode := mode } } ops).1.w.mode ∧
       (let modes := aF.itemModes.reverse
        let qs := aF.questions.reverse
        let nq := qs.length
@@ -640,6 +642,35 @@ theorem C12_final_check_clauses_partial (macFn : Tsig → List UInt8 → List UI
          All2 (RecordIs ((run { w := { s0 with mode := mode } } ops).1.w.mode ≠ .standard))
            (tsigRecs (run { w := { s0 with mode := mode } } ops).1.w.tsig mac) tl) :=
   segment_from_new macFn hmac buf limit s0 hnew hlim mode ops ht hb hr hv hno mac'
+
+/-! ### the walk of a segment reduces to the pointer audit
+
+  `C12_segment_reduces_to_pointer_audit_partial` (no `clear_rrs`, no `getters`; the MAC has exactly the
+  size the specification expects — `hml` —, and the MAC handed to the specification is the one
+  `finish` returned): everything `walk` and `checkSegment` check holds, including the Bool form of
+  the TSIG check (`tsigRecordOk_of`), so the whole walk *equals* `auditPointers d modes mode`, the
+  pointer audit of C13 on the decoded message. -/
+theorem C12_segment_reduces_to_pointer_audit_partial (macFn : Tsig → List UInt8 → List UInt8)
+    (hmac : MacLenOK macFn) (buf : Bytes) (limit : Nat) (s0 : State) (hnew : Writer.new buf limit = .ok s0)
+    (hlim : limit ≤ 65535) (mode : CMode) (ops : List Op) (ht : ∀ op ∈ ops, op.Typed)
+    (hb : ∀ op ∈ ops, ApiBounds op) (hr : Respects { w := { s0 with mode := mode } } ops)
+    (hv : ∀ v, Op.setLimit v ∈ ops → v ≤ 65535)
+    (hno : ∀ op ∈ ops, op ≠ .clearRrs ∧ op ≠ .getters ∧ NonEmptySet op)
+    (hml : ∀ m mac ts, finish (run { w := { s0 with mode := mode } } ops).1.w macFn = .ok (m, mac) →
+      (run { w := { s0 with mode := mode } } ops).1.w.tsig = some ts →
+      (mac.getD []).length = (toATsig ts).macLen)
+    (mac' : Option (List UInt8))
+    (hmac' : ∀ m mac, finish (run { w := { s0 with mode := mode } } ops).1.w macFn = .ok (m, mac) →
+      mac' = none ∨ mac' = some (mac.getD [])) :
+    ∃ (m : Bytes) (mac : Option (List UInt8)) (d : Spec.Message.Decoded) (aF : Spec.Message.AState),
+      finish (run { w := { s0 with mode := mode } } ops).1.w macFn = .ok (m, mac) ∧
+      Spec.Message.specDecodeMsg m = some d ∧
+      Spec.Message.walk false
+          { mode := Driver.toSpecMode mode, buflen := buf.size, limit := min limit buf.size }
+          (ops.map Driver.toSpecOp)
+          ((run { w := { s0 with mode := mode } } ops).2.map Driver.statusStr ++ ["ok"]) [m] (some d) mac' =
+        Spec.Message.auditPointers d aF.itemModes.reverse aF.mode :=
+  segment_reduces_to_audit macFn hmac buf limit s0 hnew hlim mode ops ht hb hr hv hno hml mac' hmac'
 
 /-! non-vacuity: a `CasePreserving` session that respects the contract, whose calls all succeed, and
     that emits two pointers (owner = QNAME; the CNAME target shares a suffix with it) — all
